@@ -38,7 +38,7 @@ SPEC = {
     "budget": {"quick": 600, "thorough": 1500},
     "technique": "Lean 4 theorems over a DB buffer machine (conservation invariant for every write sequence, thresholds, table set and unbindable-row predicate), total encoder tables, schema inference and multiplexing + pins regenerated from the AST (thresholds, modulo tests, encoder dict per class resolved through the hierarchy, flatten, close handler, statement text of the mirrored methods) + differential runs (cleanup, DB op traces, schema, end-to-end decode of every artefact)",
     "level_text": "Machine-checked proof that the buffer/flush/commit bookkeeping of the database stream commits exactly the written rows of every table of the schema, in order, for every write sequence, every pair of thresholds and every initial counter; that a failing close loses exactly the buffered rows; that every stream class has an applicable encoder and an accepting sink for every value of the universe; that the inferred schema covers every key of every row; that multiplexing is pointwise writing. The model is tied to the source by bridging lemmas over pins regenerated on every run and by differential runs against the real classes and the public entry point.",
-    "level_note": "Trusted: Lean kernel; py2lean; the harness and its decoders; csv/json/sqlite3/SQLAlchemy and the Python renderings str()/isoformat()/repr() (carried as strings in the model). Control flow of the mirrored methods is pinned as text and tied by correspondence. Floats are compared only on short dyadic values. D15 (final batch written only by close(), whose errors are swallowed) was repaired by 043066e (generate commits before success; Multiplex closes every stream): close_reports and mux_close_reaches_all are proved at full strength, the old behaviour is kept as an explicit model parameter. D15b (residual: the SQL dump is still written by close(); an encoding error of the text file is swallowed) is a finding. D16 (CSV header lacked _sf_update_key) was repaired by bc0f717: csv_header_covers_rows is proved at full strength and its input runs as a regression case.",
+    "level_note": "Trusted: Lean kernel; py2lean; the harness and its decoders; csv/json/sqlite3/SQLAlchemy and the Python renderings str()/isoformat()/repr() (carried as strings in the model). Control flow of the mirrored methods is pinned as text and tied by correspondence. Floats are compared only on short dyadic values. D15 (final batch written only by close(), whose errors are swallowed) was repaired by 043066e (generate commits before success; Multiplex closes every stream): close_reports and mux_close_reaches_all are proved at full strength, the old behaviour is kept as an explicit model parameter. D15b (residual: the SQL dump is still written by close(); an encoding error of the text file is swallowed) is a finding. D56 (the SQL script cut strings at a NUL) was repaired by e8cf4d3 (the str encoder of the SQL script raises): cell_str is proved at full strength with the refusal as an explicit error outcome. D16 (CSV header lacked _sf_update_key) was repaired by bc0f717: csv_header_covers_rows is proved at full strength and its input runs as a regression case.",
     "assumptions": [
         "csv.DictWriter/csv.reader, json.dumps/json.loads and sqlite3/SQLAlchemy round-trip text, integers within 64 bits and NULL exactly",
         "a flush is one transaction: a row sqlite cannot bind fails the whole flush (observed; modelled as all-or-nothing)",
@@ -274,6 +274,9 @@ def run_enc(ctx, rep):
                 code = canon_encoded(inst.cleanup("f", v, "T", {"id": 1, "f": v}))
             except TypeError as e:
                 code = ["error", "noEncoder"] if "No encoder found" in str(e) else ["error", "TypeError"]
+            except ValueError as e:
+                # the SQL script's `_reject_nul` (fix e8cf4d3): an encoder that raises
+                code = ["error", "encoderRaises"] if "NUL character" in str(e) else ["error", "ValueError"]
             except Exception as e:  # noqa
                 code = ["error", type(e).__name__]
             reqs.append({"m": "c08.cleanup", "cls": cls, "val": {k: x for k, x in val.items() if k != "type"}})
@@ -287,7 +290,10 @@ def run_enc(ctx, rep):
         if st != "ok" or model != code:
             rep.disagreement("c08.cleanup", case, model, code)
         # oracle: every value of the universe has an encoder in every class
-        if val["t"] != "other" and isinstance(code, list):
+        sanctioned = cls == "sqlText" and val["t"] == "str" and "\x00" in val["v"] and code == ["error", "encoderRaises"]
+        if sanctioned:
+            rep.count("enc:sqlText:nul-rejected")
+        if val["t"] != "other" and isinstance(code, list) and not sanctioned:
             rep.violation(f"C08:no-encoder:{cls}:{val['t']}", f"{CLS_PY[cls]}.cleanup has no applicable encoder for a {val['t']} value",
                           case, "an encoded value", code)
 
@@ -1098,6 +1104,10 @@ def check_e2e(case, rep, mc, res=None):
             bind = "too large to convert to SQLite" in err
             if bind:
                 rep.count("e2e:reported-bind-error")
+            elif ("NUL character" in err and "sql" in cfg.get("files", [])
+                  and any(isinstance(v, str) and "\x00" in v for _, f in rows for _, v in f)):
+                # the SQL script refuses a string holding a NUL (fix e8cf4d3): reported, nothing shortened
+                rep.count("e2e:reported-nul-error")
             elif "codec can't encode" in err:
                 rep.count("e2e:reported-encoding-error")  # the configured text file cannot hold the character; reported
             else:
@@ -1297,12 +1307,21 @@ def hostile_sheet(strings, per=12):
     return out
 
 
-HOSTILE_SHEETS = hostile_sheet(CONTROL) + hostile_sheet(LONG_STRINGS)
+# strings holding a NUL get their own sheet: the SQL script refuses them (the run fails, reported), so
+# they must not keep the other strings of a sheet from being checked in that configuration
+NUL_STRINGS = [x for x in CONTROL if "\x00" in x] + ["\x00\x00", "tail\x00", "\x00head", "a,\"\x00\r"]
+HOSTILE_SHEETS = hostile_sheet([x for x in CONTROL if "\x00" not in x]) + hostile_sheet(LONG_STRINGS)
+NUL_SHEETS = hostile_sheet(NUL_STRINGS)
 
 FIXED_E2E = [
     {"kind": "e2e", "spec": sp, "cfg": cfg}
     for sp in HOSTILE_SHEETS
     for cfg in ({"csv": True}, {"db": 1, "files": ["txt", "json", "sql"]})
+] + [
+    # NUL: round-trips in csv / dburl / txt / json, refused (run fails) by the SQL script — never shortened
+    {"kind": "e2e", "spec": sp, "cfg": cfg}
+    for sp in NUL_SHEETS
+    for cfg in ({"csv": True}, {"db": 1, "files": ["txt", "json"]}, {"files": ["sql"]}, {"db": 1, "files": ["json", "sql"]})
 ] + [
     # D15 shapes: unbindable value in the final batch
     {"kind": "e2e", "recipe": D15_RECIPE, "cfg": {"db": 1}},
